@@ -13,7 +13,7 @@ ID = "C15"
 PROPS = ["Invoke/Props/C15.lean"]
 TARGETS = ["drv_runopts"]
 DRIVER_ROOTS = ["Driver/Runopts.lean"]
-GENERATED = ["Runner"]
+GENERATED = ["Runner", "RunnerState"]
 RULE = ("cases = (a) run: (kwargs, config overrides of run.*, timeouts.command, parent environment) through the REAL "
         "Runner.run/_setup/_unify_kwargs_with_config/generate_env over a capturing scripted process - every single key x "
         "{kwarg absent,None,False,other} x {config absent,None,False,other}; the interacting keys hide/echo/dry/asynchronous/"
@@ -162,10 +162,12 @@ def run_line(case):
                                     enc_map(case["penv"]))
 
 
-def observe_run(call, get_runner, cmd, kw_case, penv):
+def observe_run(call, get_runner, cmd, kw_case, penv, extra_kw=None, echo_probe=False):
     """one real run through `call(cmd, **kwargs)` -> (canonical line, facts for the oracle); `get_runner()` returns the
-    Runner object that executed it"""
+    Runner object that executed it.  extra_kw: real objects overriding the decoded kwargs; echo_probe: the command also
+    produces output that may be mirrored to stdout, so "echoed" means "the command text itself was printed"."""
     kw = {k: real(v) for k, v in kw_case.items()}
+    kw.update(extra_kw or {})
     fin, fout, ferr = TS(0), TS(1), TS(2)
     facts = {"exc": None, "echoed": "", "started": None}
     with mock.patch.dict(os.environ, penv, clear=True), mock.patch.object(sys, "stdin", fin), \
@@ -178,6 +180,8 @@ def observe_run(call, get_runner, cmd, kw_case, penv):
             facts["exc"] = e
     r = get_runner()
     facts["echoed"] = "".join(fout.buf)
+    if echo_probe and cmd not in facts["echoed"]:
+        facts["echoed"] = ""
     facts["started"] = r.started
     facts["runner"] = r
     # snapshot: the runner object may be reused for the next run of a history
@@ -282,6 +286,123 @@ def impl_hist(case):
                 except Exception:  # noqa
                     pass
     return results
+
+
+# ------------------------------------------------------------------ (g) runs in a row on ONE runner object
+
+class EndsWith:
+    """a stateless watcher (safe to share between runs, e.g. through the config): answers when the output seen so far
+    ENDS with the pattern - the scripted output is chunked so that this happens exactly once per occurrence"""
+
+    def __init__(self, pattern, response):
+        self.pattern, self.response = pattern, response
+
+    def submit(self, stream):
+        return [self.response] if stream.endswith(self.pattern) else []
+
+
+def make_watchers(spec, flavour):
+    """spec: list of [pattern, response]; flavour "responder" = the real invoke Responder (fresh object per run)"""
+    import re as _re
+    from invoke.watchers import Responder
+    if flavour == "responder":
+        return [Responder(_re.escape(p), r) for p, r in spec]
+    return [EndsWith(p, r) for p, r in spec]
+
+
+def rhist_model_kw(run):
+    kw = dict(run["kw"])
+    w = run["w"]
+    if w != "absent":
+        kw["watchers"] = None if w is None else {"list": len(w)}
+    return kw
+
+
+def rhist_model_cfg(case):
+    cfg = dict(case["cfg"])
+    if case["cfg_w"] != "absent":
+        cfg["watchers"] = {"list": len(case["cfg_w"])}
+    return cfg
+
+
+def rhist_lines(case):
+    cfg = rhist_model_cfg(case)
+    return [run_line({"cmd": r["cmd"], "kw": rhist_model_kw(r), "cfg": cfg, "cfg_timeout": case["cfg_timeout"], "penv": case["penv"]})
+            for r in case["runs"]]
+
+
+def expected_writes(case, run):
+    """the ACTIVE watchers of a run are the resolution of THAT run's own call: kwarg if given (not None), else config,
+    else the built-in default (none); each answers once per occurrence of its pattern in that run's output"""
+    w = run["w"]
+    active = w if w not in ("absent", None) else ([] if case["cfg_w"] == "absent" else case["cfg_w"])
+    text = "".join(run["out"])
+    return sorted(r for p, r in active for _ in range(text.count(p)))
+
+
+def check_rhist(case, defaults):
+    from fakerunner import Scripted
+    from invoke import Context
+
+    class Re(Scripted):
+        def rearm(self, out, exited):
+            self._out, self._err, self._exited = [x.encode() for x in out if x], [], exited  # an empty read means EOF
+            self._drained = {"out": False, "err": self._pty}
+            self.stdin_writes, self.stdin_closed, self.started, self.killed = [], 0, None, 0
+
+    conf = make_config({"cfg": {k: v for k, v in case["cfg"].items()}, "cfg_timeout": case["cfg_timeout"]})
+    if case["cfg_w"] != "absent":
+        conf.run.watchers = make_watchers(case["cfg_w"], "stateless")
+    r = Re(Context(conf))
+    lines, why = [], None
+    cfg_model = rhist_model_cfg(case)
+    for i, run in enumerate(case["runs"]):
+        r.rearm(run["out"], run.get("exited", 0))
+        extra = {}
+        if run["w"] not in ("absent", None):
+            extra["watchers"] = make_watchers(run["w"], run.get("flavour", "stateless"))
+        kw_model = rhist_model_kw(run)
+        line, facts = observe_run(r.run, lambda: r, run["cmd"], kw_model, case["penv"], extra_kw=extra, echo_probe=True)
+        lines.append(line)
+        if why is not None:
+            continue
+        w = oracle_run({"cmd": run["cmd"], "kw": kw_model, "cfg": cfg_model, "cfg_timeout": case["cfg_timeout"],
+                        "penv": case["penv"]}, facts, defaults)
+        if w:
+            why = "run #%d of %d on one runner object: %s" % (i + 1, len(case["runs"]), w)
+            continue
+        got = sorted(x.decode("utf-8", "replace") for x in r.stdin_writes)
+        ran = facts["exc"] is None and facts["started"] is not None and not facts["opts"].get("disown")
+        want = expected_writes(case, run) if ran else []
+        if got != want:
+            why = ("run #%d of %d on one runner object: %r was written to the command's stdin, the watchers of THIS call "
+                   "(kwarg %s, config %s) demand %r; output was %r; earlier runs had watchers %r" % (
+                       i + 1, len(case["runs"]), got, run["w"], case["cfg_w"], want, "".join(run["out"]),
+                       [x["w"] for x in case["runs"][:i]]))
+    return " ## ".join(lines), why
+
+
+def check_rhist_real(case):
+    """the same on a REAL `Local` runner and a real child that prompts and reads an answer"""
+    from invoke import Context, Config
+    from invoke.runners import Local
+    from invoke.watchers import Responder
+    r = Local(Context(Config(lazy=True)))
+    got = []
+    for run in case["runs"]:
+        answered = run["w"] not in ("absent", None, [])
+        cmd = "printf 'name? '; read -t %s a; echo \"got:$a\"" % ("5" if answered else "0.25")
+        kw = dict(hide=True, in_stream=False, warn=True)
+        if run["w"] != "absent":
+            kw["watchers"] = None if run["w"] is None else [Responder("name\\? ", resp) for resp in run["w"]]
+        res = r.run(cmd, **kw)
+        want = "name? got:%s\n" % (run["w"][0].strip() if answered else "")
+        got.append(res.stdout)
+        if res.stdout != want:
+            return "|".join(got), ("run #%d on one real Local runner (watchers of this call: %r, of the earlier calls: %r): the child "
+                                   "saw %r, demand %r" % (len(got), run["w"], [x["w"] for x in case["runs"][:len(got) - 1]],
+                                                          res.stdout, want))
+    return "|".join(got), None
 
 
 def hist_lines(case):
@@ -929,6 +1050,10 @@ def replay(case):
         line, why = check_sudopw(case)
     elif k == "hist":
         line, why = check_hist(case, _defaults())
+    elif k == "rhist":
+        line, why = check_rhist(case, _defaults())
+    elif k == "rhist_real":
+        line, why = check_rhist_real(case)
     else:
         return True, "unknown case kind"
     return why is None, why or "ok: %s" % line[:300]
@@ -1094,6 +1219,58 @@ def run(ctx):
         cases.append({"kind": "hist", "mode": mode, "cfg": cfg, "cfg_timeout": rng.choice([None, None, 9]), "penv": PENV,
                       "steps": steps})
 
+    # (g) 2-4 runs in a row on ONE runner object, each with its own per-call options; watchers observed by behaviour
+    PATS = [["PW? ", "y\n"], ["name: ", "bob\n"], ["[y/n] ", "n\n"], ["{}> ", "{0}\n"]]
+    rh_keys = [k for k in keys if k not in ("watchers", "in_stream", "out_stream", "err_stream")]
+
+    def gen_w(allow_absent=True):
+        x = rng.random()
+        if x < 0.35 and allow_absent:
+            return "absent"
+        if x < 0.45:
+            return None
+        if x < 0.6:
+            return []
+        return [list(p) for p in rng.sample(PATS, rng.choice([1, 1, 2]))]
+
+    def gen_out(mention):
+        chunks = []
+        for p in mention:
+            chunks += [rng.choice(["", "pre ", "line\n", "x" * 30]), p]
+        chunks.append(rng.choice(["", "\n", " done\n"]))
+        return [c for c in chunks]
+
+    for i in range(ctx.n(160, 2500)):
+        cfg = {}
+        for k in rh_keys:
+            if rng.random() < 0.1:
+                cfg[k] = rng.choice(DOM_CFG[k])
+        cfg_w = rng.choice(["absent", "absent", [], [list(rng.choice(PATS))]])
+        runs, prev = [], []
+        for j in range(rng.randint(2, 4)):
+            kw = {}
+            for k in rh_keys:
+                if rng.random() < (0.12 if k not in ("asynchronous", "disown", "dry") else 0.05):
+                    kw[k] = rng.choice(DOM_KW[k])
+            if rng.random() < 0.2:
+                kw["in_stream"] = rng.choice([False, S_IN])
+            if rng.random() < 0.15:
+                kw["timeout"] = rng.choice([None, 5])
+            # the first run (almost) always brings watchers; later runs often bring none / an empty list / their own
+            w = gen_w(allow_absent=j > 0) if (j > 0 or rng.random() < 0.2) else [list(p) for p in rng.sample(PATS, rng.choice([1, 2]))]
+            own = [p for p, _ in w] if w not in ("absent", None) else []
+            cfgp = [p for p, _ in cfg_w] if cfg_w != "absent" else []
+            mention = list(dict.fromkeys(prev + own + cfgp + ([rng.choice(PATS)[0]] if rng.random() < 0.3 else [])))
+            rng.shuffle(mention)
+            runs.append({"cmd": "CMD-%d-%d" % (i, j), "kw": kw, "w": w, "out": gen_out(mention),
+                         "exited": 0, "flavour": rng.choice(["stateless", "responder"])})
+            prev = list(dict.fromkeys(prev + own))
+        cases.append({"kind": "rhist", "cfg": cfg, "cfg_w": cfg_w, "cfg_timeout": rng.choice([None, None, 9]), "penv": PENV,
+                      "runs": runs})
+    for seq in ([["y\n"], "absent"], [["y\n"], [], ["z\n"], None]) if not big else (
+            [["y\n"], "absent"], [["y\n"], [], ["z\n"], None], ["absent", ["q\n"], "absent"], [["a\n"], ["b\n"], "absent"]):
+        cases.append({"kind": "rhist_real", "runs": [{"w": w} for w in seq]})
+
     for kwp, cfgp, ws in itertools.product(["absent", None, "pw", ""], [None, "secret"], [False, True]):
         cases.append({"kind": "sudopw", "kw": kwp, "cfg": cfgp, "watchers": ws})
 
@@ -1106,6 +1283,11 @@ def run(ctx):
             continue
         if k == "cwdseq":
             lines += ["cwd " + enc_strs(st) for st in c["stacks"]]
+            continue
+        if k == "rhist":
+            lines += rhist_lines(c)
+            continue
+        if k == "rhist_real":
             continue
         if k == "sudopw":
             lines.append("resp %s %s" % ("A" if c["kw"] == "absent" else enc_v(c["kw"]), enc_v(c["cfg"])))
@@ -1124,7 +1306,22 @@ def run(ctx):
 
     for c, m in zip(cases, model):
         k = c["kind"]
-        if k == "cwdseq":
+        if k == "rhist":
+            out.case(c, True)
+            got, why = check_rhist(c, defaults)
+            out.hist["rhist"] += 1
+            out.hist["rhist:runs"] += len(c["runs"])
+            for a, b in zip(c["runs"], c["runs"][1:]):
+                had = a["w"] not in ("absent", None, [])
+                out.hist["rhist:%s-then-%s" % ("watchers" if had else "none",
+                                               "absent" if b["w"] == "absent" else "None" if b["w"] is None else
+                                               "empty" if b["w"] == [] else "own")] += 1
+        elif k == "rhist_real":
+            out.case(c, True)
+            m = None
+            got, why = check_rhist_real(c)
+            out.hist["rhist:real-Local"] += 1
+        elif k == "cwdseq":
             out.case(c, True)
             got, why = check_cwdseq(c)
             out.hist["cwd:sequence-on-one-context"] += 1
